@@ -14,7 +14,7 @@ func init() {
 	register("p1big", "seeded larger PAR1 sets: create, damage, verify, repair on the real code", runP1Big)
 }
 
-var uniNames = []string{"plain.dat", "with space.bin", "файл.dat", "文件.bin", "\U0001F600smile.dat", "áccent.txt", "\U00010348gothic", "UPPER.DAT", "dots.in.name", "x"}
+var uniNames = []string{"plain.dat", "with space.bin", "файл.dat", "文件.bin", "\U0001F600smile.dat", "áccent.txt", "\U00010348gothic", "UPPER.DAT", "dots.in.name", "x", "back\\slash.txt", "a[1]*?.dat", "-dash", "semi;colon&amp", "trailing.", "q'uo\"te"}
 
 func runP1Big(args []string) error {
 	c := newCommon("p1big")
